@@ -615,7 +615,8 @@ def _names(t):
 
 def reaching_defs(cfg):
     """rd[node.id] = {name: frozenset(def node ids)} holding at entry of node.
-    Parameters are defined at the entry node."""
+    Parameters are defined at the entry node.  A node's own definitions do not hold on its exceptional
+    (exc/close) out-edges: the assignment did not happen."""
     params = cfg.func.all_params
     IN = {n.id: {} for n in cfg.live}
     OUT = {n.id: {} for n in cfg.live}
@@ -627,16 +628,19 @@ def reaching_defs(cfg):
         inwork.discard(n.id)
         if n is not cfg.entry:
             merged = {}
-            for (_l, p) in n.pred:
-                for k, v in OUT[p.id].items():
+            for (l, p) in n.pred:
+                src = IN[p.id] if (l in ("exc", "close") and p is not cfg.entry and p.kind != "except") else OUT[p.id]
+                for k, v in src.items():
                     merged[k] = merged.get(k, frozenset()) | v
+            changed_in = merged != IN[n.id]
             IN[n.id] = merged
             out = dict(merged)
             for d in node_defs(n):
                 out[d] = frozenset([n.id])
         else:
             out = OUT[n.id]
-        if out != OUT[n.id] or n is cfg.entry:
+            changed_in = True
+        if out != OUT[n.id] or changed_in:
             OUT[n.id] = out
             for (_l, s) in n.succ:
                 if s.id not in inwork:
